@@ -199,7 +199,7 @@ impl Rec for libc::siginfo_t {
         self.si_signo
     }
     fn id(&self) -> i64 {
-        unsafe { *((self as *const libc::siginfo_t as *const i32).add(4)) as i64 }
+        crate::reg::info_id(self) as i64
     }
     fn unfaithful(&self) -> Option<String> {
         crate::reg::info_mismatch(self).map(|off| format!("raw record differs from the delivered siginfo_t at byte offset {}", off))
@@ -219,6 +219,14 @@ impl Rec for Origin {
         // judged against the independent decoder of C17 for the code this delivery carried
         let got = crate::c17::cause_label(&self.cause);
         match &self.process {
+            // the anonymous sender: which delivery it was cannot be told, but what it says must
+            // be exactly "sent by a process, pid 0, uid 0"
+            Some(p) if p.pid == 0 => {
+                if got != "Sent(User)" || p.uid != 0 {
+                    return Some(format!("origin reports cause {} with process {:?} for a sender with pid 0", got, p));
+                }
+                None
+            }
             Some(p) => {
                 let code = crate::reg::code_of(p.pid as i32);
                 let (want, has) = crate::c17::reference(self.signal, code);
@@ -961,6 +969,7 @@ pub fn analyse(case: &IterCase, res: &RunResult) -> CaseReport {
         // yields in an order that says nothing about the order in which they took the records
         let mut last_rec_delivery: HashMap<(i64, i32), i64> = HashMap::new();
         let mut processless: HashMap<i64, u64> = HashMap::new();
+        let mut anonymous_seen: HashMap<i64, u64> = HashMap::new();
         for (pos, sig, id, _load, _pc) in &yields {
             let ytid = yield_tid.get(pos).cloned().unwrap_or(0);
             // watched?
@@ -989,6 +998,15 @@ pub fn analyse(case: &IterCase, res: &RunResult) -> CaseReport {
                             }
                         }
                         last_rec_delivery.insert((*sig, ytid), *id);
+                    }
+                    _ if case.exf % 3 == 2 && *id == 0 => {
+                        // an origin with the anonymous sender: one of the begun anonymous deliveries
+                        let n = anonymous_seen.entry(*sig).or_insert(0u64);
+                        *n += 1;
+                        let begun = dels.iter().filter(|d| d.sig == *sig && d.start < *pos && crate::reg::anonymous(d.id as i32)).count() as u64;
+                        if *n > begun {
+                            rep.viol("C10/record", format!("{} origin records with sender pid 0 for signal {} although only {} such deliveries had begun", n, sig, begun));
+                        }
                     }
                     _ if case.exf % 3 == 2 && *id == -2 => {
                         // an origin without a process: one of the begun deliveries of that signal
